@@ -7,8 +7,11 @@ VERIF = os.path.dirname(os.path.dirname(os.path.abspath(__file__)))
 REPO = os.environ.get("VERIF_REPO", "/repo")
 COQ = os.path.join(VERIF, "coq")
 BUILD = os.path.join(VERIF, "build")
-EVIDENCE = os.path.join(VERIF, "evidence")
-REPLAYS = os.path.join(VERIF, "replays")
+# evidence/ describes /repo itself: a run against another checkout (VERIF_REPO=<tree>, used for the seeded changes)
+# writes its evidence and replays under build/ so that it never overwrites the evidence of the real tree
+_ALT = os.path.realpath(REPO) != os.path.realpath("/repo")
+EVIDENCE = os.path.join(BUILD, "evidence_alt") if _ALT else os.path.join(VERIF, "evidence")
+REPLAYS = os.path.join(BUILD, "replays_alt") if _ALT else os.path.join(VERIF, "replays")
 PY = "/venv/bin/python"
 NCPU = int(os.environ.get("VERIF_JOBS", "16"))
 COQ_FLAGS = ["-Q", "Model", "V.Model", "-Q", "Proofs", "V.Proofs", "-Q", "Props", "V.Props",
